@@ -18,6 +18,8 @@ type vfC18Case struct {
 	B     []float32 `json:"b"`
 	C     []float32 `json:"c"`
 	Scale float32   `json:"scale"`
+	// number of queries of the batch evaluation (the three vectors, cycled); 0 = the default four
+	BatchN int `json:"batch_n,omitempty"`
 }
 
 func vfGenComponent(rt *rapid.T, label string, flavour int) float32 {
@@ -79,6 +81,15 @@ func vfC18Gen(rt *rapid.T) vfC18Case {
 	c.A = vfGenNonZeroVector(rt, "a", c.Dim)
 	c.C = vfGenNonZeroVector(rt, "c", c.Dim)
 	c.Scale = float32(rapid.Float64Range(0.001, 1000).Draw(rt, "scale"))
+	switch bc := rapid.IntRange(0, 19).Draw(rt, "batch_class"); {
+	case bc < 4:
+		c.BatchN = rapid.IntRange(1, 40).Draw(rt, "batch_n")
+	case bc == 4 && c.Dim >= 16:
+		// a large batch (implementations may split or parallelise those), size of any residue mod 8
+		c.BatchN = 70000/c.Dim + rapid.IntRange(0, 9).Draw(rt, "batch_extra")
+	case bc == 5:
+		c.BatchN = rapid.IntRange(41, 300).Draw(rt, "batch_n_medium")
+	}
 	rels := []string{"independent", "equal", "opposite", "orthogonal", "nearly_parallel", "scaled"}
 	c.Rel = rapid.SampledFrom(rels).Draw(rt, "rel")
 	switch c.Rel {
@@ -273,6 +284,26 @@ func vfC18Run(c vfC18Case, ctx *vfCtx) *vfViolation {
 			if float64(dac) > float64(dab)+float64(dbc)+2*rtolL2*sum+1e-30 {
 				return vfFail("l2: triangle inequality: d(a,c)=%v > d(a,b)+d(b,c)=%v+%v", dac, dab, dbc)
 			}
+			// the other orientation, and a collinear (tight) triple: m is the midpoint of a and b
+			if float64(dab) > float64(dac)+float64(dbc)+2*rtolL2*sum+1e-30 {
+				return vfFail("l2: triangle inequality: d(a,b)=%v > d(a,c)+d(c,b)=%v+%v", dab, dac, dbc)
+			}
+			mid := make([]float32, c.Dim)
+			for i := range mid {
+				mid[i] = c.A[i]/2 + c.B[i]/2
+			}
+			dam, dmb := float64(d.Calculate(c.A, mid)), float64(d.Calculate(mid, c.B))
+			if math.Abs(dam+dmb-float64(dab)) > 4*rtolL2*(dam+dmb+float64(dab))+4*vfEps32*(vfRefNorm(c.A)+vfRefNorm(c.B))+1e-30 {
+				return vfFail("l2: d(a,m)+d(m,b)=%v+%v differs from d(a,b)=%v for the midpoint m (dim %d)", dam, dmb, dab, c.Dim)
+			}
+			// the zero vector is an ordinary operand of the L2 family
+			zv := make([]float32, c.Dim)
+			if dz := float64(d.Calculate(zv, c.A)); math.Abs(dz-vfRefNorm(c.A)) > rtolL2*vfRefNorm(c.A)+1e-30 {
+				return vfFail("l2: d(0,a)=%v, |a|=%v", dz, vfRefNorm(c.A))
+			}
+			if dz := d.Calculate(zv, zv); dz != 0 {
+				return vfFail("l2: d(0,0)=%v", dz)
+			}
 			sq, _ := NewDistance(L2Squared)
 			s := float64(sq.Calculate(c.A, c.B))
 			if math.Abs(s-float64(dab)*float64(dab)) > 8*vfEps32*s+1e-30 {
@@ -319,15 +350,34 @@ func vfC18Run(c vfC18Case, ctx *vfCtx) *vfViolation {
 		}
 
 		// batch == element-wise, bit for bit; inputs untouched
+		qcopy0 := [][]float32{vfCloneF32(pa), vfCloneF32(pb), vfCloneF32(pc)}
 		queries := [][]float32{pa, pb, pc, pa}
 		qcopy := [][]float32{vfCloneF32(pa), vfCloneF32(pb), vfCloneF32(pc), vfCloneF32(pa)}
+		if c.BatchN > 0 && c.BatchN <= 1<<17 {
+			queries, qcopy = queries[:0], qcopy[:0]
+			for i := 0; i < c.BatchN; i++ {
+				queries = append(queries, [][]float32{pa, pb, pc}[i%3])
+				qcopy = append(qcopy, [][]float32{qcopy0[0], qcopy0[1], qcopy0[2]}[i%3])
+			}
+			ctx.ClassIf(c.BatchN*c.Dim >= 65536, "large_batch")
+		}
 		target := vfCloneF32(pc)
 		batch := d.CalculateBatch(queries, pc)
 		if len(batch) != len(queries) {
 			return vfFail("%s: CalculateBatch returned %d results for %d queries", kind, len(batch), len(queries))
 		}
 		for i, q := range queries {
-			if one := d.Calculate(q, pc); math.Float32bits(one) != math.Float32bits(batch[i]) {
+			// equal up to float32 accumulation error: the interface allows a batch implementation that
+			// associates the sums differently (precomputed norms, blocked loops)
+			one := float64(d.Calculate(q, pc))
+			tolB := atolCos
+			switch kind {
+			case Euclidean:
+				tolB = rtolL2*one + 1e-30
+			case L2Squared:
+				tolB = rtolSq*one + 1e-30
+			}
+			if math.IsNaN(float64(batch[i])) || math.Abs(one-float64(batch[i])) > 2*tolB {
 				return vfFail("%s: CalculateBatch[%d]=%v but Calculate=%v", kind, i, batch[i], one)
 			}
 			if !vfBitsEqual(q, qcopy[i]) {
@@ -379,6 +429,14 @@ func vfC18Run(c vfC18Case, ctx *vfCtx) *vfViolation {
 	sc[0] += 1
 	if !vfBitsEqual(c.A, a0) {
 		return vfFail("Scale modified or aliases its input")
+	}
+	for _, f := range []float32{-c.Scale, 0, -1} {
+		sn := Scale(c.A, f)
+		for i := range sn {
+			if len(sn) != c.Dim || sn[i] != c.A[i]*f {
+				return vfFail("Scale(a, %v)[%d]=%v want %v", f, i, sn[i], c.A[i]*f)
+			}
+		}
 	}
 	nz := Normalize(c.A)
 	if !vfBitsEqual(c.A, a0) {
